@@ -45,7 +45,9 @@ Record rcfg := {
   c_iso_handler : option (list Z);     (* application ISO request handler: the PGNs it accepts (it sends nothing itself) *)
   c_prodinfo : list Z;                 (* payload of PGN 126996 for device 0 (all devices use it) *)
   c_confinfo : list Z;                 (* payload of PGN 126998 *)
-  c_hb_on : bool                       (* harness switch: heartbeat left enabled *)
+  c_hb_on : bool;                      (* harness switch: heartbeat left enabled *)
+  c_inst1 : list Z; c_inst2 : list Z; c_manuf : list Z;   (* InstallationDescription1/2, ManufacturerInformation as C strings (bytes before the NUL) *)
+  c_inst_changed : bool                (* InstallationDescriptionChanged *)
 }.
 
 Record rnode := {
